@@ -300,8 +300,9 @@ Interior(t) == SubSeq(t, 2, Len(t) - 1)
 HasNul(bs) == \E i \in 1..Len(bs) : bs[i] = 0
 IsBareName(t) == t # <<>> /\ IsHeadChar(t[1]) /\ AllOf(IsTailChar, t)
 IsDigits(t) == t # <<>> /\ AllOf(IsDecDigit, t)
-\* numeric IDs are 32-bit in LLVM ("invalid value number (too large)"): at most 9 digits is safe
-IdFits(t) == Len(t) <= 9
+\* LLVM 14 reads every digit run as an ID: values beyond 32 bits are truncated (the lexer records
+\* "invalid value number (too large)" but llvm-as still accepts @4294967296 as @0), so size is no criterion
+IdFits(t) == TRUE
 
 \* the part after the sigil for @ % $
 DecodeVar(rest, hasIDs) ==
@@ -366,6 +367,26 @@ RefEncode(kind, s) ==
     [] kind = "label" -> RefBody(s) \o <<58>>
     [] kind = "mdname" -> <<33>> \o RefMDBody(s)
     [] kind = "string" -> RefQuote(s)
+\* Other spellings LLVM's lexer reads as the same name: every byte as a lower-case \xx escape inside
+\* quotes; the backslash as \5C (the library's own choice); needless quotes; a bare label with a
+\* leading digit.  Each is a set of [tag, tok].
+EscByteL(b) == <<Backslash, HexByteL(b \div 16), HexByteL(b % 16)>>
+AllEscaped(s) == <<Quote>> \o Concat([i \in 1..Len(s) |-> EscByteL(s[i])]) \o <<Quote>>
+Esc5C(s) == <<Quote>> \o Concat([i \in 1..Len(s) |->
+               IF IsPrintable(s[i]) /\ s[i] # Quote /\ s[i] # Backslash THEN <<s[i]>> ELSE EscByte(s[i])]) \o <<Quote>>
+Wrap(kind, body) ==
+  CASE kind = "global" -> <<64>> \o body
+    [] kind \in {"local", "type"} -> <<37>> \o body
+    [] kind = "comdat" -> <<36>> \o body
+    [] kind = "label" -> body \o <<58>>
+    [] kind = "string" -> body
+AltEncodings(kind, s) ==
+  IF kind = "mdname"
+  THEN {[tag |-> "all-escaped", tok |-> <<33>> \o Concat([i \in 1..Len(s) |-> EscByteL(s[i])])]}
+  ELSE {[tag |-> "all-escaped", tok |-> Wrap(kind, AllEscaped(s))],
+        [tag |-> "backslash-as-5C", tok |-> Wrap(kind, Esc5C(s))]}
+       \cup (IF kind = "label" /\ AllOf(IsTailChar, s) /\ ~IsDigits(s)
+             THEN {[tag |-> "bare-label", tok |-> s \o <<58>>]} ELSE {})
 RefEncodeID(kind, ds) ==
   CASE kind = "global" -> <<64>> \o ds
     [] kind \in {"local", "type"} -> <<37>> \o ds
